@@ -5,9 +5,10 @@
 int verif_exc;
 
 #define GHOSTS                                           \
-  size_t in_x, in_y, in_c, in_k;                         \
+  uint8_t in_x, in_y, in_c; /* narrow: see ppm_load.c */  \
+  size_t in_k;                                           \
   uint8_t in_v;                                          \
-  int32_t in_w, in_h;                                    \
+  uint8_t in_w, in_h;                                    \
   bool in_rev;                                           \
   g_x = in_x; g_y = in_y; g_c = in_c;                    \
   g_bk = in_k; g_bv = in_v
